@@ -98,7 +98,7 @@ func NewBoltTransport(
 		return nil, &TransportError{err: err}
 	}
 
-	lastEventID, err := getDBLastEventID(db, bucketName)
+	lastSeq, lastEventID, err := getDBLastEventID(db, bucketName)
 	if err != nil {
 		return nil, &TransportError{err: err}
 	}
@@ -112,11 +112,14 @@ func NewBoltTransport(
 
 		subscribers: NewSubscriberList(1e5),
 		closed:      make(chan struct{}),
+		lastSeq:     lastSeq,
 		lastEventID: lastEventID,
 	}, nil
 }
 
-func getDBLastEventID(db *bolt.DB, bucketName string) (string, error) {
+// getDBLastEventID returns the sequence number and the ID of the last stored update.
+func getDBLastEventID(db *bolt.DB, bucketName string) (uint64, string, error) {
+	var lastSeq uint64
 	lastEventID := EarliestLastEventID
 	err := db.View(func(tx *bolt.Tx) error {
 		b := tx.Bucket([]byte(bucketName))
@@ -125,16 +128,17 @@ func getDBLastEventID(db *bolt.DB, bucketName string) (string, error) {
 		}
 
 		if k, _ := b.Cursor().Last(); k != nil {
+			lastSeq = binary.BigEndian.Uint64(k[:8])
 			lastEventID = string(k[8:])
 		}
 
 		return nil
 	})
 	if err != nil {
-		return "", fmt.Errorf("unable to get lastEventID from BoltDB: %w", err)
+		return 0, "", fmt.Errorf("unable to get lastEventID from BoltDB: %w", err)
 	}
 
-	return lastEventID, nil
+	return lastSeq, lastEventID, nil
 }
 
 // Dispatch dispatches an update to all subscribers and persists it in Bolt DB.
@@ -271,6 +275,11 @@ func (t *BoltTransport) dispatchHistory(s *LocalSubscriber, toSeq uint64) error 
 				continue
 			}
 
+			// Updates stored after the registration of the subscriber are delivered by the live dispatch
+			if binary.BigEndian.Uint64(k[:8]) > toSeq {
+				break
+			}
+
 			var update *Update
 			if err := json.Unmarshal(v, &update); err != nil {
 				s.HistoryDispatched(responseLastEventID)
@@ -281,7 +290,7 @@ func (t *BoltTransport) dispatchHistory(s *LocalSubscriber, toSeq uint64) error 
 				return fmt.Errorf("unable to unmarshal update: %w", err)
 			}
 
-			if (s.Match(update) && !s.Dispatch(update, true)) || (toSeq > 0 && binary.BigEndian.Uint64(k[:8]) >= toSeq) {
+			if s.Match(update) && !s.Dispatch(update, true) {
 				s.HistoryDispatched(responseLastEventID)
 
 				return nil
